@@ -12,6 +12,7 @@ HOSTILE_STRINGS = [
     ("tab", "a\tb"), ("only-space", " "), ("unicode-escape-like", "\\u0041"),
     # alphanumeric for Unicode, but no identifier character for TypeScript
     ("alnum-not-identifier", "x\u00b2"), ("alnum-not-identifier", "\u2460st"), ("alnum-not-identifier", "a\u00bdb"),
+    ("alphabetic-not-identifier", "\u24b6"), ("alphabetic-not-identifier", "\u0345x"),
     # what the object-merging rewrite looks for
     ("splice-pattern", "a } & { b"), ("line-separator", "a\u2028b"),
 ]
